@@ -15,6 +15,11 @@ FRAGMENTS = [
     ("MainProgram", "gen_main"),
     ("Ctors", "gen_ctor"),
     ("Sizes", "gen_sizes"),
+    ("Ruler", "gen_ruler"),
+    ("RFOffsets", "gen_rf"),
+    ("DriftWake", "gen_drift"),
+    ("ApplyTo", "gen_applyto"),
+    ("Moments", "gen_moments"),
 ]
 
 
